@@ -34,6 +34,11 @@ pub struct Layout {
     /// pad with whitespace up to this total size (0 = no padding)
     pub pad_to: usize,
     pub pad_pos: PadPos,
+    /// (boundary, delta, occurrence): insert whitespace inside the document so that the
+    /// first byte of the n-th non-ASCII character lands at `k*boundary - 1 + delta`
+    /// (delta 0 = the character straddles the boundary)
+    #[serde(default)]
+    pub align_non_ascii: Option<(usize, i32, u16)>,
 }
 
 impl Layout {
@@ -44,6 +49,7 @@ impl Layout {
             escapes: Escapes::None,
             pad_to: 0,
             pad_pos: PadPos::After,
+            align_non_ascii: None,
         }
     }
 }
@@ -191,6 +197,21 @@ pub fn write(v: &Value, layout: &Layout) -> Vec<u8> {
     w.value(v, 0);
     let first_gap = w.first_gap.unwrap_or(0);
     let mut s = w.out;
+    if let Some((boundary, delta, occ)) = layout.align_non_ascii {
+        let gap = first_gap.max(1).min(s.len());
+        let positions: Vec<usize> = s.char_indices().filter(|(i, c)| *i >= gap && !c.is_ascii()).map(|(i, _)| i).collect();
+        if !positions.is_empty() && boundary > 0 {
+            let p = positions[(occ as usize) % positions.len()];
+            // smallest k*boundary - 1 + delta that is >= p
+            let mut target = boundary as i64 - 1 + delta as i64;
+            while target < p as i64 {
+                target += boundary as i64;
+            }
+            let n = (target - p as i64) as usize;
+            let pad: String = (0..n).map(|i| if i % 89 == 88 { '\n' } else { ' ' }).collect();
+            s.insert_str(gap, &pad);
+        }
+    }
     if layout.pad_to > s.len() {
         let n = layout.pad_to - s.len();
         let mut pad = String::with_capacity(n);
@@ -215,7 +236,7 @@ mod tests {
         for ws in [Ws::Compact, Ws::Pretty(2), Ws::Random(7)] {
             for esc in [Escapes::None, Escapes::NonAscii, Escapes::SomeAscii] {
                 for (pad_to, pos) in [(0, PadPos::After), (9000, PadPos::Before), (9000, PadPos::Inside), (20000, PadPos::After)] {
-                    let l = Layout { ws: ws.clone(), key_seed: 5, escapes: esc.clone(), pad_to, pad_pos: pos };
+                    let l = Layout { ws: ws.clone(), key_seed: 5, escapes: esc.clone(), pad_to, pad_pos: pos, align_non_ascii: None };
                     let b = write(&v, &l);
                     let back: Value = serde_json::from_slice(&b).unwrap();
                     assert_eq!(back, v);
